@@ -220,7 +220,7 @@ def rule_set_unix(ctx, cfg, F):
             first, facts = st
             extra = list(edge_fact(b, s, labs))
             return (first, facts | frozenset(extra))
-        ex.walk(rb, (True, frozenset()), step, edge=edge)
+        ex.walk(rb, (True, frozenset()), step, edge=edge, env0=ex.entry_env(rb))
         drain_bad, close_bad = [], []
         n_closed = 0
         for facts, lb in leaves:
